@@ -338,6 +338,9 @@ func C18(c *vk.Ctx) {
 							if m, _ := vk.Recover(func() { got = rowsCanon(w) }); m != "" {
 								continue
 							}
+							if bi > 0 && i < len(blocks[bi-1]) && refcol.Equal(anyList(got), anyList(blocks[bi-1][i].vals)) {
+								continue // still what the previous, accepted block put there: nothing was received
+							}
 							for j, cl := range cols {
 								if j != i && len(cl.vals) > 0 && refcol.Equal(anyList(got), anyList(cl.vals)) && (i >= len(cols) || !refcol.Equal(anyList(cols[i].vals), anyList(cl.vals))) {
 									c.Violation("C18/target-received-other-column", id, fmt.Sprintf("%s: rejected, but target %d now holds the data of column %d", desc(), i, j), nil)
